@@ -50,6 +50,9 @@ PrimOk(ev) ==
   /\ ev.sh = ShiftDef(r, ev.k)                                   \* shifting preserves length
   /\ ev.sh[2] - ev.sh[1] = ev.len
   /\ ev.ush = r                                                  \* shifting back restores the range
+  /\ ev.sb = ShiftDef(r, 0 - r[1])                               \* r -= r.begin(): the argument is a value, not the live bound
+  /\ ev.ab = ShiftDef(r, r[1])                                   \* r += r.begin()
+  /\ ev.ae = ShiftDef(r, r[2])                                   \* r += r.end()
   /\ ne => /\ ev.ov = OverlapDef(r, q)
            /\ ev.ct = ContainsDef(r, q)
            /\ ev.cg = ContigDef(r, q)
